@@ -1,16 +1,22 @@
 /-
-  QKV.Model.Estimator — `qkeras/estimate.py: analyze_accumulator`, as written.
+  QKV.Model.Estimator — `qkeras/estimate.py: analyze_accumulator`, as written (after the repairs
+  "analyze_accumulator visits every output channel" and "... adds the bias after scaling").
 
-      for i in range(k.shape[1]):
-        npp = np.sum(k[..., i] * (k[..., i] > 0)) + (b[i] > 0) * b[i]
-        nnn = np.sum(k[..., i] * (k[..., i] < 0)) + (b[i] < 0) * b[i]
-        n1 = npp * (x_max > 0) * x_max + nnn * (x_min < 0) * x_min
-        n0 = - (nnn * (x_max > 0) * x_max + npp * (x_min < 0) * x_min)
+      if isinstance(layer, QDepthwiseConv2D):
+        k = k.reshape(k.shape[:-2] + (-1,))
+      for i in range(k.shape[-1]):
+        npp = np.sum(k[..., i] * (k[..., i] > 0))
+        nnn = np.sum(k[..., i] * (k[..., i] < 0))
+        n1 = npp * (x_max > 0) * x_max + nnn * (x_min < 0) * x_min + b[i]
+        n0 = - (nnn * (x_max > 0) * x_max + npp * (x_min < 0) * x_min + b[i])
         nbits.append(n1 if n1 > n0 else n0)
       max_bits = int(np.ceil(np.log2(max(nbits))))
 
-  `k[..., i]` is the slice of the LAST kernel axis (output channel / depth multiplier) while
-  the loop bound is the size of axis 1 — equal only for rank-2 (dense) kernels.
+  `k[..., i]` is the slice of the LAST kernel axis and the loop runs over that axis: one slice
+  per output channel (dense `(cin, cout)`, conv `(…, cin, cout)`, depthwise `(kh, kw, cin·dm)`
+  after the reshape).  The model takes the list of per-output-channel slices (flattened) and the
+  bias vector; the harness builds the slices from the layer semantics (depthwise output channel
+  `c·dm + m` is fed by `k[:, :, c, m]`), not from the implementation's reshape.
   Core Lean only; exact rationals (the tie keeps the real run in the exact float regime).
 -/
 import QKV.Model.Basic
@@ -22,15 +28,17 @@ def negPart (x : Rat) : Rat := if x < 0 then x else 0
 def sumPos (ws : List Rat) : Rat := (ws.map posPart).sum
 def sumNeg (ws : List Rat) : Rat := (ws.map negPart).sum
 
-/-- `npp`: positive weights plus positive bias -/
-def estNpp (ws : List Rat) (b : Rat) : Rat := sumPos ws + posPart b
-/-- `nnn`: negative weights plus negative bias -/
-def estNnn (ws : List Rat) (b : Rat) : Rat := sumNeg ws + negPart b
+/-- `npp`: sum of the positive weights of one output channel -/
+def estNpp (ws : List Rat) : Rat := sumPos ws
+/-- `nnn`: sum of the negative weights of one output channel -/
+def estNnn (ws : List Rat) : Rat := sumNeg ws
 
+/-- `n1`: the largest output — the bias is added after the scaling by the input range -/
 def estN1 (ws : List Rat) (b xmin xmax : Rat) : Rat :=
-  estNpp ws b * posPart xmax + estNnn ws b * negPart xmin
+  estNpp ws * posPart xmax + estNnn ws * negPart xmin + b
+/-- `n0`: minus the smallest output -/
 def estN0 (ws : List Rat) (b xmin xmax : Rat) : Rat :=
-  - (estNnn ws b * posPart xmax + estNpp ws b * negPart xmin)
+  - (estNnn ws * posPart xmax + estNpp ws * negPart xmin + b)
 
 /-- the per-channel entry of `nbits` -/
 def chanBound (ws : List Rat) (b xmin xmax : Rat) : Rat :=
@@ -41,21 +49,22 @@ def chanBound (ws : List Rat) (b xmin xmax : Rat) : Rat :=
 inductive EstResult | ok (e : Int) | indexError | overflowError
   deriving DecidableEq, Repr
 
-/-- the channels the loop visits: `i < shape1`, slice `i` of the last axis paired with `b[i]` -/
-def visited (shape1 : Nat) (slices : List (List Rat)) (bias : List Rat) : List (List Rat × Rat) :=
-  (slices.zip bias).take shape1
+/-- the channels the loop visits: every slice `i` of the last axis, paired with `b[i]` -/
+def channels (slices : List (List Rat)) (bias : List Rat) : List (List Rat × Rat) :=
+  slices.zip bias
 
 def listMax (l : List Rat) : Rat := l.foldl (fun a b => if a < b then b else a) (l.headD 0)
 
-/-- `analyze_accumulator` for one layer: `shape1 = k.shape[1]`, `slices[i] = k[..., i]`
-    flattened, `bias` the bias vector (zeros of length `k.shape[-1]` without bias).
-    IndexError as soon as the loop index runs past the last axis (of `k` or of `b`).
-    `max(nbits) = 0` gives `log2 0 = -inf` and `int(-inf)` raises OverflowError;
-    an empty loop (`shape1 = 0`) cannot occur for a built layer. -/
-def analyzeAccumulator (shape1 : Nat) (slices : List (List Rat)) (bias : List Rat)
+/-- `analyze_accumulator` for one layer: `slices[i] = k[..., i]` flattened (one per output
+    channel), `bias` the bias vector (zeros of length `k.shape[-1]` without bias).
+    IndexError if `b[i]` runs past the bias vector (cannot occur for a built layer: the bias has
+    one element per output channel).  `max(nbits) = 0` gives `log2 0 = -inf` and `int(-inf)`
+    raises OverflowError (`max(nbits) < 0` is impossible, `Lemmas.Estimator.chanBound_nonneg`);
+    an empty loop (no output channel) cannot occur for a built layer. -/
+def analyzeAccumulator (slices : List (List Rat)) (bias : List Rat)
     (xmin xmax : Rat) : EstResult :=
-  if shape1 ≤ slices.length ∧ shape1 ≤ bias.length then
-    let m := listMax ((visited shape1 slices bias).map fun (ws, b) => chanBound ws b xmin xmax)
+  if slices.length ≤ bias.length then
+    let m := listMax ((channels slices bias).map fun (ws, b) => chanBound ws b xmin xmax)
     if m ≤ 0 then .overflowError else .ok (ceilLog2Rat m)
   else .indexError
 
